@@ -146,47 +146,53 @@ def refine_sections(
             [x.lines for x in parent_section.child_sections]
         )
     )
-    lines = list(set(parent_section.lines) - child_lines)
+    lines = [x for x in parent_section.lines if x not in child_lines]
 
     # Creates internal sections recursively in
-    # the child sections
-    child_sections = parent_section.child_sections
-    for child_section in child_sections:
-        child_section = refine_sections(child_section)
+    # the child sections. A child section without lines
+    # of its own is removed and hands its child sections
+    # over to this section, hence the copy of the list
+    for child_section in list(parent_section.child_sections):
+        refine_sections(child_section)
 
-    if lines == [] and parent_section.parent_section is not None:
+    grandparent_section = parent_section.parent_section
+    if lines == [] and grandparent_section is not None:
         # No unique parent section lines, parent section
         # covered by its child sections and thus unnecessary
-        # Removes parent section
-        parent_section.parent_section.child_sections.remove(parent_section)
-        # Adds current child sections to the parent of the removed
-        # parent section
-        parent_section = parent_section.parent_section
-        for child_section in child_sections:
-            if child_section not in parent_section.child_sections:
-                parent_section.child_sections.append(child_section)
-        parent_section = refine_sections(parent_section)
-    else:
-        # Parent section has unique lines
-        # Remove non-unique lines and switches from
-        # parent section
-        parent_section.lines = lines
-        parent_section.switches = unique(
-            parent_section.switches
-            + [
-                x
-                for child_section in parent_section.child_sections
-                for x in child_section.switches
-                if x.line in parent_section.lines
-                or sum(
-                    [
-                        toline in parent_section.lines
-                        for toline in x.line.fbus.toline_list
-                    ]
-                )
-                > 0
-            ]
-        )
+        # Replaces parent section by its child sections in the
+        # parent of the removed parent section
+        # (Section equality is based on lines, compare by identity)
+        child_sections = []
+        for section in grandparent_section.child_sections:
+            if section is parent_section:
+                child_sections += parent_section.child_sections
+            else:
+                child_sections.append(section)
+        grandparent_section.child_sections = child_sections
+        parent_section.child_sections = []
+        parent_section.lines = []
+        return grandparent_section
+
+    # Parent section has unique lines
+    # Remove non-unique lines and switches from
+    # parent section
+    parent_section.lines = lines
+    parent_section.switches = unique(
+        parent_section.switches
+        + [
+            x
+            for child_section in parent_section.child_sections
+            for x in child_section.switches
+            if x.line in parent_section.lines
+            or sum(
+                [
+                    toline in parent_section.lines
+                    for toline in x.line.fbus.toline_list
+                ]
+            )
+            > 0
+        ]
+    )
     if len(parent_section.lines) == 1:
         if len(parent_section.lines[0].get_switches()) > 0:
             # Single line parent section with switches
